@@ -38,6 +38,8 @@ func (b *Buffer[K, V]) spec_Add(n ReadBufItem[K, V]) (pb *PolicyBuffers[K, V]) {
 	ensures("no_batch", imp(pb == nil, b.head.Load() == old(b.head.Load()) && (b.tail.Load() == old(b.tail.Load()) || b.tail.Load() == old(b.tail.Load())+1) &&
 		len(sp_pb(b).Returned) == old(len(sp_pb(b).Returned))))
 	ensures("not_wedged", imp(old(sp_notWedged(b)), sp_notWedged(b)))
+	// C19: the batch (pb.Returned) belongs to the goroutine that took the stripe's token, until Free hands it back
+	ensures("token", heldToken() == (pb != nil))
 	return
 }
 
@@ -52,11 +54,13 @@ func (b *Buffer[K, V]) spec_Add_loop1(i int, head uint64, pb *PolicyBuffers[K, V
 // hand the batch back: the buffer is emptied and the token becomes available again
 func (b *Buffer[K, V]) spec_Free() {
 	flag("atomics_stable")
+	flag("holds_token") // called by the goroutine that got the batch from Add
 	requires("inv", sp_bufInv(b) && b.returned == nil)
 	ensures("inv", sp_bufInv(b))
 	ensures("token_free", b.returned == b.policyBuffers && len(sp_pb(b).Returned) == 0)
 	// C08 "never wedges": handing the token back must not leave a full stripe without a drainer
 	ensures("not_wedged", sp_notWedged(b))
+	ensures("token_released", !heldToken())
 }
 
 func (b *Buffer[K, V]) spec_Free_loop1(i int, pb *PolicyBuffers[K, V]) {
